@@ -16,19 +16,160 @@ open Mjw Mjw.Gen.Support Mjw.Spec.ContactForce
 def masked {K : Type} [Scalar K] (njmax : Int) (p : Int → K) (adr : Int) : Int → K :=
   fun k => if adr + k < njmax then p (adr + k) else Scalar.lit 0 0
 
-/-- the edge-force array relative to the contact's first row -/
+/-- the edge-force array relative to the contact's first row: `efc_force + efc_address` -/
 def shifted {K : Type} (p : Int → K) (adr : Int) : Int → K := fun k => p (adr + k)
 
-theorem forRange_unfold {σ : Type} (n : Nat) (init : σ) (f : Int → σ → σ) :
-    forRange 0 (Int.ofNat n) init f = (List.range n).foldl (fun s k => f (Int.ofNat k) s) init := by
-  simp [forRange]
+theorem masked_eq_shifted {K : Type} [Scalar K] (njmax : Int) (p : Int → K) (adr k : Int)
+    (h : adr + k < njmax) : masked njmax p adr k = shifted p adr k := by
+  simp [masked, shifted, h]
+
+/-! ### `_decode_pyramid` against the spec, rows ≥ njmax read as 0 -/
+
+theorem decode1 (njmax : Int) (p : Int → ℝ) (adr : Int) (mu : V5 ℝ) :
+    _decode_pyramid njmax p adr mu 1 = decodePyramid (shifted p adr) mu 1 := by
+  simp [_decode_pyramid, decodePyramid, shifted, V6.zero, V6.fill]
 
 theorem decode3_masked (njmax : Int) (p : Int → ℝ) (adr : Int) (mu : V5 ℝ) :
     _decode_pyramid njmax p adr mu 3 = decodePyramid (masked njmax p adr) mu 3 := by
   simp [_decode_pyramid, decodePyramid, forRange, List.range_succ, V6.set, V5.get, V6.zero, V6.fill,
     tangent, sumTo, masked]
   ring_nf
-  trace_state
-  sorry
+  simp
+
+theorem decode4_masked (njmax : Int) (p : Int → ℝ) (adr : Int) (mu : V5 ℝ) :
+    _decode_pyramid njmax p adr mu 4 = decodePyramid (masked njmax p adr) mu 4 := by
+  simp [_decode_pyramid, decodePyramid, forRange, List.range_succ, V6.set, V5.get, V6.zero, V6.fill,
+    tangent, sumTo, masked]
+  ring_nf
+  simp
+
+theorem decode6_masked (njmax : Int) (p : Int → ℝ) (adr : Int) (mu : V5 ℝ) :
+    _decode_pyramid njmax p adr mu 6 = decodePyramid (masked njmax p adr) mu 6 := by
+  simp [_decode_pyramid, decodePyramid, forRange, List.range_succ, V6.set, V5.get, V6.zero, V6.fill,
+    tangent, sumTo, masked]
+  ring_nf
+  simp
+
+/-- the spec only looks at edge forces `0 ≤ k < max 1 (2(dim-1))` -/
+theorem decodePyramid_congr (p q : Int → ℝ) (mu : V5 ℝ) (dim : Int)
+    (hd : dim = 1 ∨ dim = 3 ∨ dim = 4 ∨ dim = 6)
+    (h : ∀ k, 0 ≤ k → (k < 1 ∨ k < 2 * (dim - 1)) → p k = q k) :
+    decodePyramid p mu dim = decodePyramid q mu dim := by
+  rcases hd with rfl | rfl | rfl | rfl
+  · simp [decodePyramid, h 0]
+  · simp [decodePyramid, tangent, sumTo, h 0, h 1, h 2, h 3]
+  · simp [decodePyramid, tangent, sumTo, h 0, h 1, h 2, h 3, h 4, h 5]
+  · simp [decodePyramid, tangent, sumTo, h 0, h 1, h 2, h 3, h 4, h 5, h 6, h 7, h 8, h 9]
+
+/-! ### spec round trip `decode ∘ encode = id` -/
+
+theorem decode_encode1 (f : V6 ℝ) (mu : V5 ℝ)
+    (hz : f.c1 = 0 ∧ f.c2 = 0 ∧ f.c3 = 0 ∧ f.c4 = 0 ∧ f.c5 = 0) :
+    decodePyramid (encodePyramid f mu 1) mu 1 = f := by
+  obtain ⟨h1, h2, h3, h4, h5⟩ := hz
+  apply V6.ext' <;> simp [decodePyramid, encodePyramid, *]
+
+theorem decode_encode3 (f : V6 ℝ) (mu : V5 ℝ) (hz : f.c3 = 0 ∧ f.c4 = 0 ∧ f.c5 = 0)
+    (hm : mu.c0 ≠ 0 ∧ mu.c1 ≠ 0) :
+    decodePyramid (encodePyramid f mu 3) mu 3 = f := by
+  obtain ⟨h3, h4, h5⟩ := hz
+  obtain ⟨m0, m1⟩ := hm
+  apply V6.ext' <;> simp [decodePyramid, encodePyramid, tangent, sumTo, V6.get, V5.get, *] <;>
+    norm_num <;> field_simp <;> ring
+
+theorem decode_encode4 (f : V6 ℝ) (mu : V5 ℝ) (hz : f.c4 = 0 ∧ f.c5 = 0)
+    (hm : mu.c0 ≠ 0 ∧ mu.c1 ≠ 0 ∧ mu.c2 ≠ 0) :
+    decodePyramid (encodePyramid f mu 4) mu 4 = f := by
+  obtain ⟨h4, h5⟩ := hz
+  obtain ⟨m0, m1, m2⟩ := hm
+  apply V6.ext' <;> simp [decodePyramid, encodePyramid, tangent, sumTo, V6.get, V5.get, *] <;>
+    norm_num <;> field_simp <;> ring
+
+theorem decode_encode6 (f : V6 ℝ) (mu : V5 ℝ)
+    (hm : mu.c0 ≠ 0 ∧ mu.c1 ≠ 0 ∧ mu.c2 ≠ 0 ∧ mu.c3 ≠ 0 ∧ mu.c4 ≠ 0) :
+    decodePyramid (encodePyramid f mu 6) mu 6 = f := by
+  obtain ⟨m0, m1, m2, m3, m4⟩ := hm
+  apply V6.ext' <;> simp [decodePyramid, encodePyramid, tangent, sumTo, V6.get, V5.get, *] <;>
+    norm_num <;> field_simp <;> ring
+
+/-! ### friction-pyramid inequalities -/
+
+theorem abs_diff_mul_le (a b s m : ℝ) (ha : 0 ≤ a) (hb : 0 ≤ b) (hm : 0 ≤ m) (hs : a + b ≤ s) :
+    |(a - b) * m| ≤ m * s := by
+  rw [abs_mul, abs_of_nonneg hm]
+  have : |a - b| ≤ a + b := abs_le.mpr ⟨by linarith, by linarith⟩
+  nlinarith
+
+theorem abs_diff_mul_div (a b m : ℝ) (hm : 0 < m) : |(a - b) * m| / m = |a - b| := by
+  rw [abs_mul, abs_of_pos hm]; field_simp
+
+theorem abs_sub_le_add (a b : ℝ) (ha : 0 ≤ a) (hb : 0 ≤ b) : |a - b| ≤ a + b :=
+  abs_le.mpr ⟨by linarith, by linarith⟩
+
+/-! ### structure of `contact_force_fn` -/
+
+theorem vecMul_eq (v : V3 ℝ) (F : M33 ℝ) : M33.vecMul v F = M33.mulVec (M33.transpose F) v := by
+  apply V3.ext' <;> simp [M33.vecMul, M33.mulVec, M33.transpose] <;> ring
+
+/-- the elliptic copy loop of `contact_force_fn` -/
+def ellLoop {K : Type} [Scalar K] (adr : Int → Int) (efc : Int → K) (njmax dim : Int) : V6 K :=
+  forRange 0 dim (⟨Scalar.lit 0 0, Scalar.lit 0 0, Scalar.lit 0 0, Scalar.lit 0 0, Scalar.lit 0 0,
+      Scalar.lit 0 0⟩ : V6 K)
+    (fun i st => if adr i < njmax then V6.set st i (efc (adr i)) else st)
+
+/-- row `i` of an elliptic contact seen through the `address < njmax_in` guard (skipped rows stay 0) -/
+def ellMasked {K : Type} [Scalar K] (njmax : Int) (adr : Int → Int) (efc : Int → K) : Int → K :=
+  fun i => if adr i < njmax then efc (adr i) else Scalar.lit 0 0
+
+theorem ite_set {c : Prop} [Decidable c] (st : V6 ℝ) (i : Int) (x : ℝ) :
+    (if c then V6.set st i x else st) = V6.set st i (if c then x else V6.get st i) := by
+  split_ifs
+  · rfl
+  · simp only [V6.set, V6.get]; split_ifs <;> rfl
+
+theorem ellLoop_eq (adr : Int → Int) (efc : Int → ℝ) (njmax dim : Int)
+    (hd : dim = 1 ∨ dim = 3 ∨ dim = 4 ∨ dim = 6) :
+    ellLoop adr efc njmax dim = copyRows (ellMasked njmax adr efc) dim := by
+  rcases hd with rfl | rfl | rfl | rfl <;>
+    simp only [ellLoop, copyRows, ellMasked, forRange, ite_set] <;>
+    simp [List.range_succ, V6.set, V6.get]
+
+section fn
+variable (cone : Int) (frame : Int → M33 ℝ) (fric : Int → V5 ℝ) (dim : Int → Int) (adr : Int → Int → Int)
+  (adh : Int → ℝ) (efc : Int → Int → ℝ) (njmax : Int) (nacon : Int → Int) (w id : Int)
+
+theorem fn_world :
+    contact_force_fn cone frame fric dim adr adh efc njmax nacon w id true
+      = toWorld (frame id) (contact_force_fn cone frame fric dim adr adh efc njmax nacon w id false) := by
+  simp only [toWorld, ← vecMul_eq]
+  rfl
+
+theorem fn_local_active (h0 : 0 ≤ id) (h1 : id ≤ nacon 0) (h2 : 0 ≤ adr id 0) :
+    contact_force_fn cone frame fric dim adr adh efc njmax nacon w id false
+      = (let f := if cone = 0 then _decode_pyramid njmax (efc w) (adr id 0) (fric id) (dim id)
+                  else ellLoop (adr id) (efc w) njmax (dim id)
+         { f with c0 := f.c0 - adh id }) := by
+  simp [contact_force_fn, ellLoop, h0, h1, h2]
+
+theorem fn_local_inactive (h : ¬ (0 ≤ id ∧ id ≤ nacon 0 ∧ 0 ≤ adr id 0)) :
+    contact_force_fn cone frame fric dim adr adh efc njmax nacon w id false = V6.zero := by
+  have h' : ¬ ((0 ≤ id ∧ id ≤ nacon 0) ∧ 0 ≤ adr id 0) := by tauto
+  simp [contact_force_fn, h', V6.zero, V6.fill]
+
+end fn
+
+theorem toWorld_zero (F : M33 ℝ) : toWorld F (V6.zero : V6 ℝ) = V6.zero := by
+  simp [toWorld, V6.zero, V6.fill, V6.ofV3, V6.top, V6.bottom, M33.mulVec]
+
+/-- `‖Fᵀ v‖² = ‖v‖²` when the rows of `F` are orthonormal (`F·Fᵀ = I`) -/
+theorem orth_norm (F : M33 ℝ) (v : V3 ℝ) (h : M33.mul F (M33.transpose F) = M33.identity) :
+    V3.dot (M33.mulVec (M33.transpose F) v) (M33.mulVec (M33.transpose F) v) = V3.dot v v := by
+  have e := h
+  simp only [M33.mul, M33.transpose, M33.identity, M33.mk.injEq, hadd, hmul, slit] at e
+  norm_num at e
+  obtain ⟨h00, h01, h02, h10, h11, h12, h20, h21, h22⟩ := e
+  simp only [V3.dot, M33.mulVec, M33.transpose, hadd, hmul]
+  linear_combination v.c0 * v.c0 * h00 + v.c0 * v.c1 * h01 + v.c0 * v.c2 * h02 + v.c1 * v.c0 * h10
+    + v.c1 * v.c1 * h11 + v.c1 * v.c2 * h12 + v.c2 * v.c0 * h20 + v.c2 * v.c1 * h21 + v.c2 * v.c2 * h22
 
 end Mjw.Lemmas.C39
